@@ -769,6 +769,390 @@ def run_basepath(funcs_api, funcs_util):
     return res, n
 
 
+# =================================================================================================================================
+#  conventions shared by the path helpers - executed on generated tables (backend `enumeration (executed)`: a bound, not a proof)
+# =================================================================================================================================
+FID_KEY_REGEX = "C05-P-partition-key-regex-word-characters-only"
+CONVENTION_ASSUMED = [
+    "hive_path / part_id / analyse_paths[executed] / _read_partitions[executed]: the expressions are compiled from the CURRENT source (or the "
+    "current tree is imported) and EXECUTED on generated tables of path texts; the tables are stated in the obligation details - a bound",
+    "ORACLE for a hive path: every directory level that contains '=' is (text before the first '=', everything after it up to the next '/'); "
+    "this is what api._path_to_cats / core.read_row_group obtain by split for texts without a further '=' (contracts/c08_paths.py)",
+]
+ASSUMED += CONVENTION_ASSUMED
+
+
+def _compile_def(f, name):
+    node = ast.FunctionDef(name=name, args=f.tree.args, body=f.tree.body, decorator_list=[], returns=None, type_comment=None, type_params=[])
+    mod = ast.Module(body=[node], type_ignores=[])
+    ast.fix_missing_locations(mod)
+    return compile(mod, f"<{name} from the current source>", "exec")
+
+
+VALUE_SHAPES = {
+    "plain word": ["abc", "Zz_q9", "north"], "text with a space": ["north east", " lead", "trail "], "text with + : & % , ;": ["a+b", "12:30", "x&y", "50%", "a,b;c"],
+    "non-ASCII text": ["été", "中文", "naïve café"], "dots and dashes": ["1.5", "a.b-c", "q-1_2.z"], "negative numbers": ["-3", "-0.5", "-1e-07"],
+    "float texts": ["1e+22", "inf", "0.30000000000000004"], "timestamp with time of day": ["2021-06-01T12:30:00", "2021-06-01T12:00:00.123456789", "2021-06-01 12:30:00"],
+    "value containing '='": ["a=b", "x==y"], "punctuation": ["*", "~", "[x]", "{y}", "q'\"", "#tag", "(1)", "@home", "!"],
+    "empty value": [""],
+}
+KEY_SHAPES = {
+    "word": ["k", "year_month", "K9", "_x", "1st"], "hyphen": ["run-id", "sensor-id"], "dot": ["a.b"], "space": ["my key"],
+    "non-ASCII": ["région", "日付"], "other punctuation": ["k%", "a+b", "x:y"],
+}
+
+
+def hive_oracle(path):
+    out = []
+    for lvl in path.split("/")[:-1]:
+        if "=" in lvl:
+            k, v = lvl.split("=", 1)
+            out.append((k, v))
+    return out
+
+
+def run_hive_convention(util_funcs):
+    import re as _re
+    res = Results()
+    ns = {"re": _re, "seps": {}}
+    exec(_compile_def(util_funcs["ex_from_sep"], "ex_from_sep"), ns)
+    pat = ns["ex_from_sep"]("/")
+    extra = []
+    try:                       # the writer's own texts for timestamps: util.path_string of the current source on pandas Timestamps
+        import pandas as pd
+        ns2 = {"pd": pd}
+        exec(_compile_def(util_funcs["path_string"], "path_string"), ns2)
+        extra = [ns2["path_string"](pd.Timestamp(t)) for t in ("2021-06-01 12:30:00", "2021-06-01 12:00:00.123456789", "1999-12-31")]
+    except Exception:
+        pass
+    n = 0
+
+    def probe(pairs_list):
+        nonlocal n
+        for pairs in pairs_list:
+            for tail in ("part.0.parquet", "part.12.parquet"):
+                path = "/".join(f"{k}={v}" for k, v in pairs) + "/" + tail
+                n += 1
+                try:
+                    got = [tuple(m) if isinstance(m, tuple) else m for m in pat.findall(path)]
+                except Exception as ex:
+                    got = f"{type(ex).__name__}: {ex}"
+                want = hive_oracle(path)
+                if got != want:
+                    return {"path": path, "pattern": pat.pattern, "regex finds": str(got), "split convention": str(want)}
+        return None
+    for shape, vals in VALUE_SHAPES.items():
+        vals = vals + (extra if shape.startswith("timestamp") else [])
+        bad = probe([[("k", v)] for v in vals] + [[("a", v), ("b_2", "7")] for v in vals] + [[("a", "x"), ("b", v)] for v in vals])
+        res.add(f"hive_path.regex_and_split_agree[value: {shape}]", REFUTED if bad else PROVED, bad, 0.0, "enumeration (executed)",
+                "util.ex_from_sep('/') - the reader api.filter_out_cats uses - finds in '<key>=<value>/.../part.N.parquet' exactly the pairs (key, value "
+                "up to the next '/') that the split convention of api._path_to_cats / core.read_row_group gives: both readers of a hive path see "
+                "the same partition values (texts as util.path_string produces them for every value kind)")
+    for shape, keys in KEY_SHAPES.items():
+        bad = probe([[(k, "v1")] for k in keys] + [[(k, "7"), ("id", "3")] for k in keys] + [[("a", "1"), (k, "x y")] for k in keys])
+        res.add(f"hive_path.regex_and_split_agree[key: {shape}]", REFUTED if bad else PROVED, bad, 0.0, "enumeration (executed)",
+                "the same for the KEY: any column name without '/' and '=' is recovered whole by both readers")
+    return res, n
+
+
+# ---- api.PART_ID ------------------------------------------------------------------------------------------------------------------
+PART_SHAPES = {
+    "plain name": [("part.0.parquet", 0), ("part.7.parquet", 7)], "multi-digit": [("part.10.parquet", 10), ("part.123456.parquet", 123456), ("part.007.parquet", 7)],
+    "nested directories": [("a=1/part.3.parquet", 3), ("a=1/b=x y/part.21.parquet", 21), ("/abs/ds/k=2/part.5.parquet", 5)],
+    "directory named like a part file": [("src=part.0.parquet/part.5.parquet", 5), ("part.9.parquet/part.2.parquet", 2), ("x/part.1.parquet.d/k=part.33.parquet/part.4.parquet", 4)],
+    "directory with digits and dots": [("v1.2.3/part.8.parquet", 8), ("2021.06/d=1.5/part.11.parquet", 11), ("k=part.x/part.6.parquet", 6)],
+    "not a part file": [("_metadata", None), ("_common_metadata", None), ("data.parquet", None), ("part.x.parquet", None), ("part.1.parquet.tmp", None),
+                        ("a=1/part.1.parquet/other.parquet", None), ("part.1.parq", None), ("part..parquet", None), ("a=part.3.parquet/data.parquet", None)],
+}
+
+
+def run_part_id(api_tree):
+    import re as _re
+    res = Results()
+    node = next((n.value for n in api_tree.body if isinstance(n, ast.Assign) and any(isinstance(t, ast.Name) and t.id == "PART_ID" for t in n.targets)), None)
+    if node is None:
+        raise Unsupported("api.PART_ID is no longer a module-level assignment")
+    pat = eval(compile(ast.Expression(body=node), "<PART_ID from the current source>", "eval"), {"re": _re})
+    n = 0
+    for shape, rows in PART_SHAPES.items():
+        bad = None
+        for path, want in rows:
+            n += 1
+            try:
+                m = pat.match(path)                       # as api.part_ids uses it
+                got = int(m["i"]) if m else None
+            except Exception as ex:
+                got = f"{type(ex).__name__}: {ex}"
+            if got != want and bad is None:
+                bad = {"path": path, "pattern": pat.pattern, "number found": got, "number of the file name": want}
+        res.add(f"part_id.number_is_that_of_the_file_name[{shape}]", REFUTED if bad else PROVED, bad, 0.0, "enumeration (executed)",
+                "PART_ID.match(path)['i'] (api.part_ids) is the integer of the LAST path component part.<n>.parquet - whatever the directory names "
+                "look like - and there is no match for other file names: the precondition of find_max_part.fresh (contracts/c07_parts.py)")
+    return res, n
+
+
+# ---- util.analyse_paths: the real function on a table of file lists ---------------------------------------------------------------------
+ANALYSE_TABLE = {
+    "single file": [["d/e/part.0.parquet"], ["part.0.parquet"], ["/abs/x.parquet"]],
+    "identical paths": [["d/a.parquet", "d/a.parquet"]],
+    "flat directory": [["d/a.parquet", "d/b.parquet"], ["a.parquet", "b.parquet"], ["/r/s/a.parquet", "/r/s/b.parquet", "/r/s/c.parquet"]],
+    "one partition level": [["ds/k=1/part.0.parquet", "ds/k=2/part.0.parquet"], ["ds/k=1/part.0.parquet", "ds/k=1/part.1.parquet", "ds/k=2/part.0.parquet"]],
+    "deeper level common, higher level differs": [["ds/year=2023/kind=x/part.0.parquet", "ds/year=2024/kind=x/part.0.parquet"],
+                                                  ["ds/a=1/b=z/c=1/p.parquet", "ds/a=2/b=z/c=1/p.parquet", "ds/a=1/b=z/c=2/p.parquet"],
+                                                  ["x/1/same/f.parquet", "y/1/same/f.parquet"]],
+    "top level has a single value": [["ds/year=2024/site=a/part.0.parquet", "ds/year=2024/site=b/part.0.parquet"]],
+    "different depths": [["ds/part.0.parquet", "ds/k=1/part.1.parquet"], ["ds/a/b/f.parquet", "ds/a/g.parquet", "ds/h.parquet"], ["a/b/c.parquet", "a/b.parquet"]],
+    "file name equal to a directory name of another path": [["ds/x/x", "ds/x/y/x"], ["ds/a", "ds/a/a"]],
+    "no common directory": [["a/f.parquet", "b/f.parquet"], ["f.parquet", "d/f.parquet"]],
+    "backslashes and trailing separators": [["ds\\k=1\\part.0.parquet", "ds/k=2/part.0.parquet"]],
+}
+
+
+def analyse_spec(paths):
+    parts = [p.replace("\\", "/").rstrip("/").split("/") for p in paths]
+    l = 0
+    while all(len(p) - 1 > l for p in parts) and all(p[l] == parts[0][l] for p in parts):
+        l += 1
+    return "/".join(parts[0][:l]), ["/".join(p[l:]) for p in parts]
+
+
+def run_analyse_table(util_funcs):
+    res = Results()
+    ns = {}
+    exec(_compile_def(util_funcs["join_path"], "join_path"), ns)
+    exec(_compile_def(util_funcs["analyse_paths"], "analyse_paths"), ns)
+    fn = ns["analyse_paths"]
+    n = 0
+    for shape, lists in ANALYSE_TABLE.items():
+        bad = None
+        for paths in lists:
+            for order in (paths, paths[::-1]):
+                n += 1
+                try:
+                    got = fn(list(order))
+                    got = (got[0], list(got[1]))
+                except Exception as ex:
+                    got = f"{type(ex).__name__}: {ex}"
+                want = analyse_spec(order)
+                if got != want and bad is None:
+                    bad = {"file_list": list(order), "analyse_paths returns": str(got), "longest common LEADING directory prefix / relative paths": str(want)}
+        res.add(f"analyse_paths.executed_table[{shape}]", REFUTED if bad else PROVED, bad, 0.0, "enumeration (executed)",
+                "the real analyse_paths(file_list) on a table of file lists (both orders): base == the longest common LEADING directory prefix (a level "
+                "below a differing level never joins the base), out[k] == path k without the base, same order - bounds whatever spelling the function has")
+    return res, n
+
+
+# ---- api.ParquetFile._read_partitions -------------------------------------------------------------------------------------------------
+def run_read_partitions(api_funcs):
+    """symbolic run of the real method: whatever the prior state of the handle, afterwards file_scheme / cats ARE the two results of ONE call
+    paths_to_cats(<file_path of every current row group that has columns>, self.partition_meta) - nothing removed, added or reordered"""
+    from .c08_paths import Eng
+    from vc.symexec import AbstractComp
+    res = Results()
+    log = []
+
+    class CatsResult:
+        tracked = False
+
+        def __init__(self, what):
+            self.what = what
+
+        def setitem(self, eng, p, i, v, node):
+            log.append(("mutated", self.what))
+
+        def getitem(self, eng, p, i, node):
+            return Opaque((self.what, "[]"))
+
+        def call_method(self, eng, p, name, args, kw, node):
+            if name in ("items", "keys", "values", "get", "copy"):
+                return [(p, Custom(Items(self.what)))]
+            log.append(("mutated", self.what + "." + name))
+            return [(p, NONE)]
+
+        def iterate(self, eng, p):
+            return [Opaque((self.what, "key"))]
+
+        def truth(self, eng, p):
+            return eng.fresh("nonempty", B)
+
+        def contains(self, eng, p, item):
+            return eng.fresh("in", B)
+
+    class Items:
+        tracked = False
+
+        def __init__(self, what):
+            self.what = what
+
+        def iterate(self, eng, p):
+            return [Tup([Opaque((self.what, "key")), Opaque((self.what, "value"))])]
+
+    class RowGroups:
+        tracked = False
+
+        def arbitrary(self, eng, p):
+            return Custom(RowGroup())
+
+        def nonempty(self, eng, p):
+            return z3.Bool("has_row_groups")
+
+    class RowGroup:
+        tracked = False
+
+        def getitem(self, eng, p, i, node):
+            return Custom(Field(("rg", str(i.z) if isinstance(i, PyI) else "?")))
+
+        def attr(self, eng, p, name):
+            return Custom(Field(("rg", name)))
+
+    class Field:
+        tracked = False
+
+        def __init__(self, what):
+            self.what = what
+
+        def truth(self, eng, p):
+            return z3.Bool("row_group_has_columns")
+
+        def getitem(self, eng, p, i, node):
+            return Custom(Field(self.what + (str(i.z) if isinstance(i, PyI) else "?",)))
+
+        def attr(self, eng, p, name):
+            return Custom(Field(self.what + (name,)))
+
+        def call_method(self, eng, p, name, args, kw, node):
+            return [(p, Custom(Field(self.what + (name,) + tuple(str(getattr(a, "z", getattr(a, "s", "?"))) for a in args))))]
+
+    class SelfH:
+        tracked = False
+
+        def __init__(self):
+            self.state = {"cats": Custom(CatsResult("PRIOR cats of the handle")), "file_scheme": Opaque("prior scheme")}
+
+        def attr(self, eng, p, name):
+            if name in self.state:
+                return self.state[name]
+            if name == "row_groups":
+                return Custom(RowGroups())
+            if name == "partition_meta":
+                return Opaque("self.partition_meta")
+            return Opaque(("self", name))
+
+        def setattr(self, eng, p, name, v):
+            self.state[name] = v
+            log.append(("set", name, v))
+
+    def h_p2c(eng, p, args, kw, node):
+        log.append(("paths_to_cats", args[0] if args else None, args[1] if len(args) > 1 else kw.get("partition_meta")))
+        return [(p, Tup([Opaque("RESULT scheme"), Custom(CatsResult("RESULT cats"))]))]
+
+    def h_getattr(eng, p, args, kw, node):
+        if len(args) >= 2 and isinstance(args[0], Custom) and isinstance(args[0].h, SelfH) and isinstance(args[1], Str):
+            return [(p, args[0].h.attr(eng, p, args[1].s))]
+        return [(p, Opaque(("getattr", next(eng.counter))))]
+    me = SelfH()
+    eng = Eng(funcs=api_funcs, handlers={"paths_to_cats": h_p2c, "getattr": h_getattr}, opaque_calls=True)
+    outs = eng.run("ParquetFile._read_partitions", Path(), [Custom(me)])
+    P = "_read_partitions."
+    calls = [e for e in log if e[0] == "paths_to_cats"]
+    ok = len(calls) == 1 and all(q.ctl[0] == "ret" for q in outs)
+    res.add(P + "calls_paths_to_cats_once", PROVED if ok else REFUTED, None if ok else {"calls": len(calls)}, 0.0, "symbolic run", "one call, no exception")
+    if calls:
+        _, paths, meta = calls[0]
+        h = paths.h if isinstance(paths, Custom) else None
+        ok = isinstance(h, AbstractComp) and isinstance(h.coll, Custom) and isinstance(h.coll.h, RowGroups)
+        res.add(P + "paths_are_those_of_the_current_row_groups", PROVED if ok else REFUTED, None, 0.0, "symbolic run",
+                "the paths handed over are one file_path per row group of self.row_groups AS IT IS NOW (filtered only by `the row group has columns`)")
+        ok = isinstance(meta, Opaque) and meta.tag == "self.partition_meta"
+        res.add(P + "partition_metadata_is_the_handles", PROVED if ok else REFUTED, None, 0.0, "symbolic run", "partition_meta == self.partition_meta")
+    sets = {}
+    for e in log:
+        if e[0] == "set":
+            sets[e[1]] = e[2]
+    muts = [e[1] for e in log if e[0] == "mutated" and e[1].startswith("RESULT")]
+    c_ok = isinstance(sets.get("cats"), Custom) and isinstance(sets["cats"].h, CatsResult) and sets["cats"].h.what == "RESULT cats" and not muts
+    s_ok = isinstance(sets.get("file_scheme"), Opaque) and sets["file_scheme"].tag == "RESULT scheme"
+    res.add(P + "cats_are_exactly_paths_to_cats_of_current_row_groups", PROVED if c_ok and s_ok else REFUTED,
+            None if c_ok and s_ok else {"self.cats is": str(getattr(getattr(sets.get("cats"), "h", None), "what", type(sets.get("cats")).__name__)),
+                                        "result changed afterwards by": muts, "self.file_scheme is the result": s_ok}, 0.0, "symbolic run",
+            "after the call self.file_scheme, self.cats ARE the pair paths_to_cats returned - the object itself, not filtered / merged with what the handle "
+            "held before (ARBITRARY prior self.cats): a partition value that appears with a new row group is a category of the handle")
+    return res, len(outs)
+
+
+def run_read_partitions_executed():
+    """bounded backing: the method of the CURRENT tree on stub handles with prior cats that lack / exceed the current values"""
+    from runtime.harness import import_fastparquet
+    import types
+    fp = import_fastparquet()
+    from fastparquet import api
+    res = Results()
+    bad, n = None, 0
+    for paths in (["k=a/part.0.parquet", "k=b/part.1.parquet"], ["k=a/x=1/part.0.parquet", "k=c/x=2/part.1.parquet", "k=a/x=2/part.2.parquet"],
+                  ["part.0.parquet", "part.1.parquet"], ["abc/part.0.parquet", "de/part.1.parquet"]):
+        for prior in (None, {}, {"k": ["a"]}, {"k": ["z", "a", "b", "c"]}, {"k": ["b", "a"], "x": [2]}, {"other": [1]}, {"dir0": ["abc"]}):
+            n += 1
+            rgs = [{1: [{1: p}]} for p in paths]
+            h = types.SimpleNamespace(row_groups=rgs, partition_meta={})
+            if prior is not None:
+                h.cats, h.file_scheme = {k: list(v) for k, v in prior.items()}, "hive"
+            try:
+                api.ParquetFile._read_partitions(h)
+                got = (h.file_scheme, {k: sorted(map(str, v)) for k, v in h.cats.items()}, list(h.cats))
+            except Exception as ex:
+                got = f"{type(ex).__name__}: {ex}"
+            sch, cats = api.paths_to_cats(paths, {})
+            want = (sch, {k: sorted(map(str, v)) for k, v in cats.items()}, list(cats))
+            if got != want and bad is None:
+                bad = {"paths": paths, "prior self.cats": prior, "after _read_partitions": str(got), "paths_to_cats(paths)": str(want)}
+    res.add("_read_partitions.executed[prior cats lacking / exceeding the current values]", REFUTED if bad else PROVED, bad, 0.0, "enumeration (executed)",
+            "the method of the current tree on stub handles: scheme, keys (in order) and value sets == paths_to_cats(current paths) for 7 prior states x 4 path lists")
+    return res, n
+
+
+def check_conventions(ctx, which):
+    """`which`: subset of {'hive', 'part_id', 'read_partitions'} -> list of (name, model, detail, fid or None) refuted"""
+    out = []
+
+    def family(tag, function, thunk, known=None):
+        try:
+            res, n = thunk()
+        except Unsupported as ex:
+            ctx.obligation(tag + ".out_of_reach", function, UNKNOWN, "engine", 0.0, detail=str(ex), sample=True)
+            return
+        except Exception as ex:
+            ctx.obligation(tag + ".out_of_reach", function, UNKNOWN, "engine", 0.0, detail=f"{type(ex).__name__}: {ex}", sample=True)
+            return
+        ctx.vacuity["covers"] += n
+        for name in res.order:
+            st = res.status(name)
+            e = next((x for x in res.d[name] if x[0] == st), res.d[name][0])
+            fid = known(name) if (known and st == REFUTED) else None
+            if fid and ctx.is_known(fid):
+                ctx.obligation(name, function, "refuted-known", e[3], 0.0, detail=e[4], model=e[1], sample=True)
+                ctx.known_finding(fid)
+                continue
+            ctx.obligation(name, function, st, e[3], 0.0, detail=e[4], model=e[1] if st == REFUTED else None, sample=st != PROVED)
+            if st == REFUTED:
+                out.append((name, e[1], e[4], function))
+    ctx.assumptions += [a for a in CONVENTION_ASSUMED if a not in ctx.assumptions]
+    if "hive" in which:
+        u, _, _ = parse_module("fastparquet/util.py")
+        ctx.function("util.ex_from_sep", u["ex_from_sep"].sha, u["ex_from_sep"].report)
+        # keys outside [a-zA-Z_0-9] and the empty value: refuted on the unchanged tree = recorded finding (natively confirmed)
+        family("hive_path", "util.ex_from_sep", lambda: run_hive_convention(u),
+               known=lambda nm: FID_KEY_REGEX if (nm.startswith("hive_path.regex_and_split_agree[key: ") and "[key: word]" not in nm) or nm.endswith("[value: empty value]") else None)
+    if "part_id" in which:
+        family("part_id", "api.PART_ID", lambda: run_part_id(parse_module("fastparquet/api.py")[1]))
+    if "read_partitions" in which:
+        a, _, _ = parse_module("fastparquet/api.py")
+        if "ParquetFile._read_partitions" in a:
+            ctx.function("api.ParquetFile._read_partitions", a["ParquetFile._read_partitions"].sha, a["ParquetFile._read_partitions"].report)
+        family("_read_partitions", "api.ParquetFile._read_partitions", lambda: run_read_partitions(a))
+        family("_read_partitions.executed", "api.ParquetFile._read_partitions", run_read_partitions_executed)
+    return out
+
+
 def check(ctx, timeout):
     """-> list of (name, model, detail) refuted"""
     funcs, _, _ = parse_module("fastparquet/util.py")
@@ -823,4 +1207,5 @@ def check(ctx, timeout):
                 out.append((name, e[1], e[4]))
     family("ParquetFile.__init__", ["ParquetFile.__init__"], lambda api: run_init_root(api, timeout))
     family("ParquetFile.basepath", ["ParquetFile.basepath", "ParquetFile.row_group_filename"], lambda api: run_basepath(api, funcs))
+    family("analyse_paths.executed_table", ["ParquetFile.__init__"], lambda api: run_analyse_table(funcs))
     return out
